@@ -18,6 +18,8 @@
     "lengths are great-circle lengths, angles East of North"          vec_is_great_circle_east_of_north,
                                                                       ellipse_is_great_circle_east_of_north
     executable zenithal WCS                                           radial_inverse (five projections)
+    psf lookups through a psf map (any number type)                   psf_lookup_is_local, psf_lookups_history_independent,
+                                                                      cached_lookup_returns_stale (negation witness)
   NOT proved: the 1e-3 bound on the minor axis for real projections (false at first order in
   axis × distance from the reference point: open known finding C16-minor-axis-reflection), the
   composition zenW2P ∘ zenP2W = id, IEEE rounding (the 1e-6 px / 1e-9 deg clauses are sampled).
@@ -26,6 +28,7 @@ import Aegean.Proofs.C16Round
 import Aegean.Proofs.C16Minor
 import Aegean.Proofs.C16Zen
 import Aegean.Proofs.C16FromC17
+import Aegean.Proofs.C16Psf
 
 namespace Aegean.Properties.C16
 open Gen.C16 Aegean.Model.C16 Aegean.C16 Real
@@ -180,6 +183,38 @@ theorem pixel_vector_points_at_translated (W : Wcs ℝ) (ra dec r pa : ℝ) :
   refine ⟨by simp [v, sky2pixVec, s2pVecX, s2pVecY], ?_, ?_⟩
   · simp only [v, sky2pixVec, s2pVecX, s2pVecY]; exact vec_polar_x _ _ _ _
   · simp only [v, sky2pixVec, s2pVecX, s2pVecY]; exact vec_polar_y _ _ _ _
+
+/-! ### psf lookups through a psf map: functions of (map value at the position, position) only -/
+
+/-- `get_psf_sky2pix(ra, dec)` is the map's value at (ra, dec) converted AT (ra, dec), nothing else -/
+theorem psf_lookup_is_local {α : Type} [R α] (W : Wcs α) (M M' : PsfMap α) (q : PsfQuery α)
+    (h : M.val (q.pos W).1 (q.pos W).2 = M'.val (q.pos W).1 (q.pos W).2) :
+    answer W M q = answer W M' q :=
+  answer_local W M M' q h
+
+theorem psf_sky2pix_is_convert_at {α : Type} [R α] (W : Wcs α) (M : PsfMap α) (ra dec : α) :
+    psfMapSky2Pix W M ra dec = psfConvertAt W ra dec (M.val ra dec) :=
+  psfMapSky2Pix_eq W M ra dec
+
+/-- **history independence**: whatever lookups (get_psf_sky2sky / sky2pix / pix2pix / get_skybeam /
+    get_beamarea_pix / get_beamarea_deg2) were made before on the same helper object, each answer is the
+    one a fresh helper gives -/
+theorem psf_lookups_history_independent {α : Type} [R α] (W : Wcs α) (M : PsfMap α) (qs : List (PsfQuery α)) :
+    (PsfHelper.fresh M).run W qs = qs.map (answer W M) :=
+  psf_history_independent W M qs
+
+theorem psf_lookup_after_any_history {α : Type} [R α] (W : Wcs α) (M : PsfMap α) (pre : List (PsfQuery α))
+    (q : PsfQuery α) :
+    ((PsfHelper.fresh M).run W (pre ++ [q])).getLast? = ((PsfHelper.fresh M).run W [q]).head? :=
+  psf_lookup_after_history W M pre q
+
+/-- negation witness (seeded change C16-3): a helper that keeps the last conversion keyed on the map
+    VALUE returns, for a repeated value, the ellipse converted at the earlier position -/
+theorem cached_lookup_returns_stale {α : Type} [R α] [DecidableEq α] (W : Wcs α) (M : PsfMap α)
+    (ra1 dec1 ra2 dec2 : α) (h : M.val ra1 dec1 = M.val ra2 dec2) :
+    let s1 := CachedHelper.sky2pix W M ⟨none⟩ ra1 dec1
+    (CachedHelper.sky2pix W M s1.2 ra2 dec2).1 = psfConvertAt W ra1 dec1 (M.val ra1 dec1) :=
+  cached_helper_returns_stale W M ra1 dec1 ra2 dec2 h
 
 /-! ### The executable zenithal WCS -/
 
